@@ -14,11 +14,12 @@ crate, `Gen.RawLayouts.env`, is regenerated from `raw_class_file/src/lib.rs` by 
 this file is checked, so the instantiated theorems below are statements about the tables the code contains *now*.
 
 Part 1 (generic) holds for **every** layout environment, in particular for every well-formed one (`WF`, decidable);
-no hypothesis on the environment is needed.  Part 2 instantiates: the translated environment is well-formed and conforms
-to the JVMS tables of `FeatherModel/Spec/JvmsRaw.lean`, except for one open defect (constant-pool accounting of long and
-double entries) which is stated as `_witness` theorems next to a `_partial` theorem on the domain that excludes it.
-Two former defects (NestMembers `attribute_length`, MethodParameters `parameters_count`) were repaired in /repo (commits
-5d79841, 94d3d58); their former witnesses are kept as `_regression` theorems over the regenerated tables.
+no hypothesis on the environment is needed; it covers the three vector forms of the DSL (`[count type]`, `{len}`,
+`{len; slots}`).  Part 2 instantiates: the translated environment is well-formed and conforms to the JVMS tables of
+`FeatherModel/Spec/JvmsRaw.lean`, including the two-slot rule for long and double constant-pool entries (§4.4.5).
+Three former defects (NestMembers `attribute_length`, MethodParameters `parameters_count`, constant-pool accounting of
+long/double entries) were repaired in /repo (commits 5d79841, 94d3d58 and the `fix:` commit for
+C20-long-double-pool); their former witnesses are kept as `_regression` theorems over the regenerated tables.
 -/
 
 namespace Thm.C20
@@ -100,12 +101,14 @@ def cpVariants : List Variant :=
 /-- every translated layout is well-formed -/
 theorem layouts_wf : WF genv = true := by decide +kernel
 
-/-- `WF` is not vacuous: a dangling reference, a read-side expression over an unbound name and a mislabelled literal
-constant are rejected -/
+/-- `WF` is not vacuous: a dangling reference, a read-side expression over an unbound name, a mislabelled literal
+constant and a slot-counted vector of something that is not a pool entry are rejected -/
 theorem wf_rejects_ill_formed :
-    WF ⟨[.struct 0 ⟨[], [⟨1, .field (.ref 7) false, []⟩]⟩], 0⟩ = false ∧
-    WF ⟨[.struct 0 ⟨[], [⟨1, .field (.vecLen ⟨16, .var 9⟩ (.prim .u8)) false, []⟩]⟩], 0⟩ = false ∧
-    WF ⟨[.struct 0 ⟨[⟨1, .u8, ⟨8, .lit 3⟩, none⟩], []⟩], 0⟩ = false := by decide
+    WF ⟨[.struct 0 ⟨[], [⟨1, .field (.ref 7) false, []⟩]⟩], 0, []⟩ = false ∧
+    WF ⟨[.struct 0 ⟨[], [⟨1, .field (.vecLen ⟨16, .var 9⟩ (.prim .u8)) false, []⟩]⟩], 0, []⟩ = false ∧
+    WF ⟨[.struct 0 ⟨[⟨1, .u8, ⟨8, .lit 3⟩, none⟩], []⟩], 0, []⟩ = false ∧
+    WF ⟨[.struct 0 ⟨[⟨1, .u8, ⟨8, .lit 3⟩, some 3⟩], [⟨2, .field (.vecSlots ⟨8, .var 1⟩ [] (.prim .u8)) false, []⟩]⟩], 0, []⟩
+      = false := by decide
 
 /-! ### attribute_length -/
 
@@ -144,10 +147,12 @@ theorem attribute_length_nestmembers_regression :
 
 /-- **layouts = JVMS tables (full strength).**  Every translated struct and every variant of every translated enum puts
 on the wire exactly the items the JVMS lists — same names, same order, same widths, every table with the JVMS width of
-its count item; attribute variants are guarded by the attribute name they are called after; `AttributeInfo` has a u2
-tag.  (What the tables cannot say — that `constant_pool_count` counts slots, not entries — is `pool_count_partial`.) -/
-theorem layouts_jvms : Gen.RawLayouts.defs.all (defConforms Gen.RawLayouts.nameCodes) = true := by
-  decide +kernel
+its count item, the constant pool as a table counted in slots; attribute variants are guarded by the attribute name
+they are called after; `AttributeInfo` has a u2 tag; and the slot table of the implementation (`CpInfo::slots`) gives
+two slots to exactly the variants written with the tags of CONSTANT_Long and CONSTANT_Double (§4.4.5). -/
+theorem layouts_jvms :
+    Gen.RawLayouts.defs.all (defConforms Gen.RawLayouts.nameCodes) = true ∧ slotsConform cpVariants genv.wide = true := by
+  refine ⟨by decide +kernel, by decide +kernel⟩
 
 /-- every predefined attribute of the JVMS table has a variant -/
 theorem attributes_covered : attrsCovered attrVariants = true := by decide +kernel
@@ -164,26 +169,39 @@ theorem method_parameters_count_regression :
 
 theorem class_def_check :
     (match genv.defs[Gen.RawLayouts.classFileId]? with
-     | some (.struct _ body) => poolCountShape body
+     | some (.struct _ body) => poolCountShape genv.wide body
      | _ => false) = true := by decide +kernel
 
-/-- bytes 8–9 of every class file `_write` produces are `(number of pool entries + 1) as u16` -/
+/-- bytes 8–9 of every class file `_write` produces are `(pool_slots(constant_pool) + 1) as u16` -/
 theorem pool_count_written (fs : List Val) (b : Bytes) (hw : writeV genv classFileTy (.node 0 fs) = some b) :
-    ∃ es, fs[2]? = some (.list es) ∧ (b.drop 8).take 2 = be .u16 ((es.length + 1) % 65536) := by
+    ∃ es, fs[2]? = some (.list es) ∧ (b.drop 8).take 2 = be .u16 ((slotsAll genv.wide es + 1) % 65536) := by
   have hdef := class_def_check
   split at hdef
   · rename_i nm body hd
-    exact pool_count_bytes genv _ nm body fs b hd hdef hw
+    exact pool_count_bytes genv genv.wide _ nm body fs b hd hdef hw
   · cases hdef
 
-/-- **constant_pool_count (partial: pools without long/double entries).**  The count written is the JVMS count
-`1 + Σ slots` (as u16). -/
-theorem pool_count_partial (fs : List Val) (b : Bytes) (hw : writeV genv classFileTy (.node 0 fs) = some b) :
-    ∃ es, fs[2]? = some (.list es) ∧
-      ((∀ e ∈ es, isLongDouble cpVariants e = false) →
-        (b.drop 8).take 2 = be .u16 (jvmsPoolCount cpVariants es % 65536)) := by
+/-- **constant_pool_count (full strength: every pool, long/double entries included).**  The count written is the JVMS
+count `1 + Σ slots` (as u16), where an entry written with tag 5 or 6 takes two slots (§4.1, §4.4.5). -/
+theorem pool_count (fs : List Val) (b : Bytes) (hw : writeV genv classFileTy (.node 0 fs) = some b) :
+    ∃ es, fs[2]? = some (.list es) ∧ (b.drop 8).take 2 = be .u16 (jvmsPoolCount cpVariants es % 65536) := by
   obtain ⟨es, h1, h2⟩ := pool_count_written fs b hw
-  exact ⟨es, h1, fun hno => by rw [jvmsPoolCount_noLD cpVariants es hno]; exact h2⟩
+  exact ⟨es, h1, by rw [← slotsAll_eq_jvms cpVariants genv.wide layouts_jvms.2 es]; exact h2⟩
+
+/-- **constant-pool indices (full strength).**  `pool_get(pool, i)` (what `pool_has_utf8` looks an attribute name up
+with) returns an entry iff `i` is that entry's JVMS constant-pool index: one more than the slots the entries in front
+of it take up.  In particular index 0, the second index of a long/double entry and any index past the end name no entry
+(`pool_index_regression`). -/
+theorem pool_index (es : List Val) (i : Nat) (e : Val) :
+    poolGet genv.wide es 1 i = some e ↔
+      ∃ pre post, es = pre ++ e :: post ∧ i = jvmsPoolCount cpVariants pre := by
+  constructor
+  · intro h
+    obtain ⟨pre, post, h1, h2⟩ := poolGet_some genv.wide es 1 i e h
+    exact ⟨pre, post, h1, by rw [← slotsAll_eq_jvms cpVariants genv.wide layouts_jvms.2 pre]; omega⟩
+  · rintro ⟨pre, post, rfl, rfl⟩
+    rw [← slotsAll_eq_jvms cpVariants genv.wide layouts_jvms.2 pre, Nat.add_comm]
+    exact poolGet_at genv.wide pre e post 1
 
 /-- a class with an empty interface/field/method/attribute list and the given pool -/
 def classOf (pool : List Val) (methods attrs : List Val) : Val :=
@@ -197,24 +215,52 @@ def writes (c : Val) (p : Bytes → Bool) : Bool :=
 
 def utf8Entry (s : String) : Val := .node Gen.RawLayouts.utf8Variant [.list ((jstr s).map Val.num)]
 
-/-- **long/double: `constant_pool_count` ignores that they take two slots.**  A pool holding one `Long` is in the
-round-trip domain and is written with count 2; the JVMS count is 3 (a JVMS reader then reads past the pool: the frame
-walker rejects the output). -/
-theorem pool_count_witness :
+/-- regression (was `pool_count_witness` before the `fix:` commit for C20-long-double-pool-write): a pool holding one
+`Long` is in the round-trip domain and is written with the JVMS count 3 (it used to be 2); the output is a well-framed
+class file -/
+theorem pool_count_regression :
     fitsV genv none [] classFileTy (classOf [.node 7 [.num 0, .num 1]] [] []) = true ∧
     jvmsPoolCount cpVariants [.node 7 [.num 0, .num 1]] = 3 ∧
     writes (classOf [.node 7 [.num 0, .num 1]] [] [])
-      (fun b => (b.drop 8).take 2 == [0, 2] && !Walk.classFile false b) = true := by
+      (fun b => (b.drop 8).take 2 == [0, 3] && Walk.classFile b) = true := by
   refine ⟨by decide +kernel, by decide +kernel, by decide +kernel⟩
 
-/-- the same defect on the read side: the JVMS-correct encoding of that class (count 3) is well framed, and the Rust
-reader fails on it (it takes the byte after the `Long` for the tag of a second entry) -/
-theorem pool_read_witness :
-    Walk.classFile false [202, 254, 186, 190, 0, 0, 0, 52, 0, 3, 5, 0, 0, 0, 0, 0, 0, 0, 1, 0, 33, 0, 0, 0, 0,
+/-- regression (was `pool_read_witness` before the `fix:` commit for C20-long-double-pool-read): the JVMS-correct
+encoding of that class (count 3) is well framed and the Rust reader returns the class with its one `Long` entry,
+consuming all input (it used to fail, taking the byte after the `Long` for the tag of a second entry); the encoding with
+count 2, which ends in the middle of the `Long`, is rejected by the frame walker and by the reader -/
+theorem pool_read_regression :
+    Walk.classFile [202, 254, 186, 190, 0, 0, 0, 52, 0, 3, 5, 0, 0, 0, 0, 0, 0, 0, 1, 0, 33, 0, 0, 0, 0,
       0, 0, 0, 0, 0, 0, 0, 0] = true ∧
     read genv 8 Gen.RawLayouts.classFileId none [202, 254, 186, 190, 0, 0, 0, 52, 0, 3, 5, 0, 0, 0, 0, 0, 0, 0, 1, 0,
+      33, 0, 0, 0, 0, 0, 0, 0, 0, 0, 0, 0, 0] = .ok (classOf [.node 7 [.num 0, .num 1]] [] [], []) ∧
+    Walk.classFile [202, 254, 186, 190, 0, 0, 0, 52, 0, 2, 5, 0, 0, 0, 0, 0, 0, 0, 1, 0, 33, 0, 0, 0, 0,
+      0, 0, 0, 0, 0, 0, 0, 0] = false ∧
+    read genv 8 Gen.RawLayouts.classFileId none [202, 254, 186, 190, 0, 0, 0, 52, 0, 2, 5, 0, 0, 0, 0, 0, 0, 0, 1, 0,
       33, 0, 0, 0, 0, 0, 0, 0, 0, 0, 0, 0, 0] = .err := by
-  refine ⟨by decide +kernel, by decide +kernel⟩
+  refine ⟨by decide +kernel, by decide +kernel, by decide +kernel, by decide +kernel⟩
+
+/-- a class whose pool holds long/double entries first, last, adjacent and in front of the Utf8 entries naming its
+attributes (`Deprecated` at JVMS index 3, `Synthetic` at index 8) -/
+def wideClass : Val :=
+  classOf [.node 7 [.num 0, .num 1], utf8Entry "Deprecated", .node 8 [.num 2, .num 3], .node 8 [.num 4, .num 5],
+    utf8Entry "Synthetic", .node 7 [.num 6, .num 7]] [] [.node 13 [.num 3], .node 6 [.num 8]]
+
+/-- regression for attribute names behind long/double entries: `wideClass` is in the round-trip domain, is written with
+count 11 = 1 + 2 + 1 + 2 + 2 + 1 + 2, its output is well framed, is read back to the same value and satisfies
+`ConstsAgree`; the indices 0, 2, 5, 7, 10 (second slots of the long/double entries) and 11 name no entry, index 3 names
+the entry after the `Long` -/
+theorem pool_index_regression :
+    fitsV genv none [] classFileTy wideClass = true ∧
+    writes wideClass (fun b => (b.drop 8).take 2 == [0, 11] && Walk.classFile b &&
+      decide (read genv 5 Gen.RawLayouts.classFileId none b = .ok (wideClass, [])) &&
+      constsAgree genv 5 Gen.RawLayouts.classFileId none b) = true ∧
+    (match wideClass with
+     | .node _ (_ :: _ :: .list es :: _) =>
+       [0, 2, 5, 7, 10, 11].all (fun i => (poolGet genv.wide es 1 i).isNone) &&
+       decide (poolGet genv.wide es 1 3 = some (utf8Entry "Deprecated"))
+     | _ => false) = true := by
+  refine ⟨by decide +kernel, by decide +kernel, by decide +kernel⟩
 
 /-! ### the repaired NestMembers and MethodParameters defects seen by a JVMS reader, and non-vacuity -/
 
@@ -223,12 +269,12 @@ in the round-trip domain and their output is a well-framed class file -/
 theorem jvms_frame_regression :
     fitsV genv none [] classFileTy (classOf [utf8Entry "NestMembers"] [] [.node 25 [.num 1, .list [.num 1]]]) = true ∧
     writes (classOf [utf8Entry "NestMembers"] [] [.node 25 [.num 1, .list [.num 1]]])
-      (fun b => Walk.classFile true b) = true ∧
+      (fun b => Walk.classFile b) = true ∧
     fitsV genv none [] classFileTy (classOf [utf8Entry "MethodParameters"]
       [.node 0 [.num 0, .num 0, .num 0, .list [.node 20 [.num 1, .list []]]]] []) = true ∧
     writes (classOf [utf8Entry "MethodParameters"]
       [.node 0 [.num 0, .num 0, .num 0, .list [.node 20 [.num 1, .list []]]]] [])
-      (fun b => Walk.classFile true b) = true := by
+      (fun b => Walk.classFile b) = true := by
   refine ⟨by decide +kernel, by decide +kernel, by decide +kernel, by decide +kernel⟩
 
 /-- a class with a method carrying `Code` (with a nested `LineNumberTable`) and `Exceptions`: used by the examples -/
@@ -243,7 +289,7 @@ def sampleClass : Val :=
 announced length is its size; it is read back and satisfies `ConstsAgree` -/
 example : fitsV genv none [] classFileTy sampleClass = true ∧ depthV sampleClass ≤ 5 ∧
     len32 (lenV genv classFileTy sampleClass) = some 116 ∧
-    writes sampleClass (fun b => b.length == 116 && Walk.classFile true b &&
+    writes sampleClass (fun b => b.length == 116 && Walk.classFile b &&
       decide (read genv 5 Gen.RawLayouts.classFileId none b = .ok (sampleClass, [])) &&
       constsAgree genv 5 Gen.RawLayouts.classFileId none b) = true := by
   refine ⟨by decide +kernel, by decide +kernel, by decide +kernel, by decide +kernel⟩
